@@ -55,6 +55,7 @@ func init() {
 		"(reflect.Value).Uint":            ext۰reflect۰Value۰Uint,
 		"(reflect.error).Error":           ext۰reflect۰error۰Error,
 		"(reflect.rtype).Bits":            ext۰reflect۰rtype۰Bits,
+		"(reflect.rtype).Comparable":      ext۰reflect۰rtype۰Comparable,
 		"(reflect.rtype).Elem":            ext۰reflect۰rtype۰Elem,
 		"(reflect.rtype).Field":           ext۰reflect۰rtype۰Field,
 		"(reflect.rtype).In":              ext۰reflect۰rtype۰In,
